@@ -23,7 +23,7 @@ func init() {
 		ID: "C11", World: "A (authority lifecycle)", Level: "fault_enumeration",
 		Rule: "one evaluation = one (history, upload order, write-prefix) store state reloaded through a fresh gcsca instance; " +
 			"for every operation of a seeded history (first bootstrap of an empty store under BOTH certificate upload orders, then rotations with drawn common names / serial overrides, " +
-			"incl. --overwrite re-runs of a rotation cut short at a drawn prefix) EVERY prefix of its recorded object writes is enumerated; " +
+			"incl. re-runs (plain / --overwrite / --keep_going / both) of a rotation cut short at a drawn prefix, and the same rotation with the commit of its j-th object lost) EVERY prefix of its recorded object writes is enumerated; " +
 			"non-trivial = strict non-empty prefix; distinct by (operation kind, upload order, history shape, prefix index)",
 		Exhaustive: "per sampled history: all write prefixes x both bootstrap upload orders (histories themselves are sampled)",
 		Assumptions: []string{
@@ -36,7 +36,7 @@ func init() {
 			{Name: "testing/nonprod/memkm + sign/nonprod signer", Kind: "real", Note: "hook H3: keys from a fixed pool"},
 			{Name: "object store", Kind: "stub", Note: "SimDisk"},
 		},
-		Budget: core.StdBudget(240, 100*time.Second, 40000, 9*time.Minute),
+		Budget: core.StdBudget(800, 100*time.Second, 40000, 9*time.Minute),
 		Body:   runC11,
 	})
 }
@@ -49,7 +49,7 @@ func storeState(d *seams.SimDisk) string {
 // checkStore is the C11 oracle on one store state.
 func checkStore(r *core.Run, d *seams.SimDisk, where string) {
 	ctx := output.NewContext(context.Background(), &output.Options{Quiet: true})
-	ca := &gcsca.CertificateAuthority{Storage: &seams.SimDisk{R: r, Objects: d.Objects, Buckets: d.Buckets},
+	ca := &gcsca.CertificateAuthority{Storage: &seams.SimDisk{R: r, Objects: d.Objects, Buckets: d.Buckets, FailCloseN: -1},
 		PrivateBucket: bucket, SigningCertDirInGCS: certDir, RootPath: rootPath}
 	primary, err := ca.PrimarySigningKeyVersion(ctx)
 	if err != nil {
@@ -188,6 +188,26 @@ func runC11(r *core.Run) {
 		r.Eventf("rotation %d writes: %s", i, writeNames(writes))
 		sample = append(sample, fmt.Sprintf("rotate#%d: %s", i, writeNames(writes)))
 		checkPrefixes(r, pre, writes, "rotate", hist)
+		// Lost writes: the same rotation again from the same pre-state, with the commit (Close) of
+		// its j-th object failing. Whatever the operation then does and returns, every prefix of what
+		// it made durable must be a consistent store.
+		if r.Chance(50, "lost-write?") {
+			j := r.Intn(len(writes), "lost-write-index")
+			lw := a.Clone()
+			lw.Now = a.Now
+			lw.Disk = pre.Snapshot()
+			// restore the key service to "before this rotation" is not possible for destroyed keys;
+			// the rotation re-creates the same key-version name, which memkm overwrites
+			lw.Disk.FailCloseN = j
+			ra3 := ra
+			ra3.Overwrite = true
+			err, _ := lw.Rotate(ra3)
+			r.Eventf("lost-write #%d: rotate -> %s, durable writes: %s", j, errClass(err, false), writeNames(lw.Disk.Log))
+			checkPrefixes(r, pre, lw.Disk.Log, fmt.Sprintf("rotate/lost-write@%d", j), hist)
+			if err == nil {
+				r.Probe("rotation-succeeded-despite-lost-write")
+			}
+		}
 		// A rotation cut short at a drawn strict prefix, then re-run with --overwrite from there.
 		if len(writes) > 1 && r.Chance(40, "cut-and-rerun?") {
 			p := 1 + r.Intn(len(writes)-1, "cut-at")
@@ -198,14 +218,25 @@ func runC11(r *core.Run) {
 			}
 			// The key service keeps what the cut-short attempt left: new key created, old one possibly destroyed.
 			ra2 := ra
-			ra2.Overwrite = true
+			// the operator's retry: with --overwrite, with --keep_going, with both, or plain (the
+			// last two of which may legitimately be refused: whatever they write must be consistent)
+			switch r.Intn(4, "rerun-flags") {
+			case 0:
+				ra2.Overwrite = true
+			case 1:
+				ra2.KeepGoing = true
+			case 2:
+				ra2.Overwrite, ra2.KeepGoing = true, true
+			}
 			pre2 := cut.Disk.Snapshot()
 			err, _ := cut.Rotate(ra2)
 			r.Probe("rerun-after-cut")
+			r.Eventf("rerun (ow=%v kg=%v) writes: %s", ra2.Overwrite, ra2.KeepGoing, writeNames(cut.Disk.Log))
+			checkPrefixes(r, pre2, cut.Disk.Log, fmt.Sprintf("rotate-rerun-after-cut@%d/ow=%v,kg=%v", p, ra2.Overwrite, ra2.KeepGoing), hist)
 			if err == nil {
-				r.Eventf("rerun writes: %s", writeNames(cut.Disk.Log))
-				checkPrefixes(r, pre2, cut.Disk.Log, fmt.Sprintf("rotate-rerun-after-cut@%d", p), hist)
 				r.Probe("rerun-after-cut-succeeded")
+			} else {
+				r.Probe("rerun-after-cut-refused")
 			}
 		}
 	}
